@@ -325,7 +325,8 @@ Definition handle_received (m : mux) (msg : Wire.msg) (paylen : N) : outcome :=
   | ReceiveFinish port =>
       match lookup port (ports m) with
       | Some (Connected c) =>
-          let c1 := if negb (rrx_closed c) then c <| pool_closed := Some false |> <| rrx_closed := true |> else c in
+          (* the credit provider is closed non-gracefully in any case; hang-up is notified once *)
+          let c1 := c <| pool_closed := Some false |> <| rrx_closed := true |> in
           let m1 := m <| ports := insert port (Connected (c1 <| rrx_dropped := true |>)) (ports m) |> in
           match maybe_free m1 port with
           | Some (m2, effs) => Done m2 effs
